@@ -530,6 +530,9 @@ func TestCheck(t *testing.T) {
 		}
 	}
 
+	// F. raw multi-partition requests given to Transport.RoundTrip (rawmulti_test.go)
+	rawMultiPartition(s, t, thorough)
+
 	if s.Replay == nil {
 		s.AddStats(qx.ExploreAll(t, items, s.Remaining())...)
 	}
